@@ -450,7 +450,8 @@ func (s *controlledSelector) HandleSuccessResponse(
 			s.agent.getSelectedPair() != pair {
 			s.agent.setSelectedPair(pair)
 		}
-	} else if pair.nominateOnBindingSuccess {
+	} else if pair.nominateOnBindingSuccess && s.lastNomination == nil {
+		// (a plain nomination deferred before a renomination was accepted is stale as well)
 		if selectedPair := s.agent.getSelectedPair(); selectedPair == nil ||
 			(selectedPair != pair &&
 				(!s.agent.needsToCheckPriorityOnNominated() || selectedPair.priority() <= pair.priority())) {
@@ -500,7 +501,14 @@ func (s *controlledSelector) HandleBindingRequest(message *stun.Message, local, 
 			pair.state = CandidatePairStateSucceeded
 		}
 
-		if pair.state == CandidatePairStateSucceeded {
+		// Once the controlling side has used nomination values, a plain USE-CANDIDATE
+		// is a delayed or retransmitted copy of its initial nomination: it is answered,
+		// but it must not undo the renomination that superseded it.
+		stalePlainNomination := nominationValue == nil && s.lastNomination != nil
+
+		if stalePlainNomination {
+			s.log.Tracef("Ignoring plain USE-CANDIDATE for pair %s received after a renomination", pair)
+		} else if pair.state == CandidatePairStateSucceeded {
 			selectedPair := s.agent.getSelectedPair()
 			if s.shouldSwitchSelectedPair(pair, selectedPair, nominationValue) {
 				s.log.Tracef("Accepting nomination for pair %s", pair)
